@@ -493,8 +493,20 @@ def check_conditioning(ctx, fi, be):
                 P = T(strip_seq(a.right))
     if P is None:
         raise AnalysisError('synthetic_data: conditional marginal `self.project(P + (col,))` not found in the column loop')
-    cl = entry.get('cliques')
-    cl_t = T(cl) if cl is not None else 'cliques'
+    import re
+    Pn0 = P.replace(' ', '')
+    # the list of clique sets the union ranges over, read off the (expanded) conditioning set itself - whatever the locals are called
+    mm = re.fullmatch(r'(?:%s\.intersection\(|%s&)set\.union\(\*\[(\w+)for\1in(.+)if%sin\1\]\)\)?' % (re.escape(used), re.escape(used), re.escape(col)), Pn0)
+    cl_t = 'cliques'
+    if mm:
+        lst = mm.group(2)
+        if re.fullmatch(r'\w+', lst) and entry.get(lst) is not None:
+            lst = T(entry[lst]).replace(' ', '')
+        if re.fullmatch(r'\[set\((\w+)\)for\1inself\.cliques\]', lst):
+            cl_t = '[set(cl)forclinself.cliques]'
+            P = re.sub(r'\[(\w+)for\1in.+if%sin\1\]' % re.escape(col), '[clforclin%sif%sincl]' % (cl_t, col), Pn0)
+        else:
+            cl_t = lst
     want = {'%s.intersection(set.union(*[clforclin%sif%sincl]))' % (used, cl_t, col),
             '%s&set.union(*[clforclin%sif%sincl])' % (used, cl_t, col)}
     # conditioning on MORE generated columns (all of them) is still exact; fewer is not
